@@ -134,6 +134,10 @@ def tlc(module, cfg, constants=None, workers=None, timeout=900, simulate=None,
             if m:
                 res.generated = int(m.group(1))
                 res.distinct = int(m.group(2))
+            m = re.match(r"The number of states generated: (\d+)", line)
+            if m and simulate:
+                res.generated = int(m.group(1))
+                res.distinct = int(m.group(1))
             m = re.match(r"The depth of the complete state graph search is (\d+)", line)
             if m:
                 res.depth = int(m.group(1))
@@ -335,6 +339,12 @@ def _init_worker():
     warnings.filterwarnings("ignore")
 
 
+def _init_pool_worker():
+    _init_worker()
+    if not os.environ.get("VERIF_WORKER_STDOUT"):
+        sys.stdout = open(os.devnull, "w")     # the library prints debug output in places
+
+
 def pmap(fn, items, workers=None, chunksize=1):
     """Map fn over items in fresh worker processes (oqupy imported from REPO)."""
     import multiprocessing as mp
@@ -347,5 +357,5 @@ def pmap(fn, items, workers=None, chunksize=1):
         _init_worker()
         return [fn(x) for x in items]
     ctx = mp.get_context("fork")
-    with ctx.Pool(workers, initializer=_init_worker) as pool:
+    with ctx.Pool(workers, initializer=_init_pool_worker) as pool:
         return pool.map(fn, items, chunksize=chunksize)
